@@ -231,14 +231,20 @@ impl Session {
     pub fn settle(&mut self, timeout: Duration) -> Result<(Vec<u8>, Vec<u8>), SyncError> {
         let t0 = Instant::now();
         let mut spins = 0u32;
+        let mut out: Vec<u8> = vec![];
+        let mut err: Vec<u8> = vec![];
         loop {
             if let Ok(Some(_)) = self.child.try_wait() {
                 return Err(SyncError::Exited);
             }
+            // keep the pipes drained: a child that prints more than a pipe holds would
+            // otherwise block in write and never come back to read
+            out.extend(read_available(self.stdout.as_raw_fd()));
+            err.extend(read_available(self.stderr.as_raw_fd()));
             if self.unread_input() == 0 && self.blocked_in_read_stdin()? {
                 // checked in this order the two conditions are race-free
-                let out = read_available(self.stdout.as_raw_fd());
-                let err = read_available(self.stderr.as_raw_fd());
+                out.extend(read_available(self.stdout.as_raw_fd()));
+                err.extend(read_available(self.stderr.as_raw_fd()));
                 return Ok((out, err));
             }
             if t0.elapsed() > timeout {
@@ -254,9 +260,13 @@ impl Session {
     }
 
     pub fn send_line(&mut self, line: &str) -> std::io::Result<()> {
+        // a line longer than the pipe's capacity is taken by the child piece by piece
+        let mut data = line.as_bytes().to_vec();
+        data.push(b'\n');
         let s = self.stdin.as_mut().expect("stdin open");
-        s.write_all(line.as_bytes())?;
-        s.write_all(b"\n")?;
+        for chunk in data.chunks(16 * 1024) {
+            s.write_all(chunk)?;
+        }
         s.flush()
     }
 
